@@ -168,7 +168,7 @@ func (g *declGen) opt() *OptSpec {
 	if cfg.IniName && r.Chance(1, 6) {
 		o.IniName = "ini_" + w + strconv.Itoa(n)
 	}
-	if cfg.Base && !multi && strings.Contains(baseKind(kind), "int") && r.Chance(1, 4) {
+	if cfg.Base && !multi && !fn && strings.Contains(baseKind(kind), "int") && r.Chance(1, 4) {
 		o.Base = []int{2, 8, 16, 36}[r.Intn(4)]
 		o.Default = nil
 		o.OptionalValue = nil
